@@ -112,6 +112,35 @@ def proj_entry(label, arr, unit, oplabel=None):
     return e
 
 
+def lex_report(report, name, unit):
+    """Labware.report -> list of [h, l, s]: optional label line followed by the printed (rounded) array."""
+    import re
+
+    lines = report.split("\n")
+    ok = bool(lines) and lines[0] == name
+    blocks, cur_label, cur_arr, depth = [], None, [], 0
+    for ln in lines[1:]:
+        if depth == 0 and not ln.strip():
+            continue
+        opens, closes = ln.count("["), ln.count("]")
+        if depth == 0 and opens == 0:
+            cur_label = ln if cur_label is None else cur_label + "\n" + ln
+            continue
+        cur_arr.append(ln)
+        depth += opens - closes
+        if depth == 0:
+            nums = re.findall(r"-?(?:\d+\.?\d*|\.\d+)(?:[eE][+-]?\d+)?|nan|inf", " ".join(cur_arr))
+            vals = []
+            for t in nums:
+                try:
+                    vals.append(float(t))
+                except ValueError:
+                    vals.append(float("nan"))
+            blocks.append({"h": cur_label is not None, "l": cur_label or "", "rowmajor": [to_units(v, unit) for v in vals]})
+            cur_label, cur_arr = None, []
+    return {"ok": ok and depth == 0 and cur_label is None, "blocks": blocks}
+
+
 def text_arg(v):
     if isinstance(v, str):
         return {"s": v, "len": len(v), "sep": ";" in v, "isstr": True}
@@ -285,6 +314,8 @@ class Twin:
         self.wl = cls(max_volume=mv, auto_split=wlp.get("autosplit", True), diti_mode=wlp.get("diti", False), **args)
         self.prev_recs = []
         self.prev_hist = [self._hist_copy(lw) for lw in self.lws]
+        self.fullhist = bool(prog.get("flags", {}).get("fullhist"))
+        self.held = []  # arrays obtained from `volumes` after every event (they must stay snapshots)
 
     def close(self):
         if self.tmp:
@@ -369,7 +400,20 @@ class Twin:
             else:
                 post["last"].append({"h": False, "l": "", "s": [], "base": False, "num": -1})
             self.prev_hist[k] = self._hist_copy(lw)
+        if self.fullhist:
+            post["hist"] = [[proj_entry(lab, arr, self.unit) for lab, arr in lw.history] for lw in self.lws]
+            post["report"] = [lex_report(lw.report, lw.name, self.unit) for lw in self.lws]
+            self.held.append([lw.volumes for lw in self.lws])
         return post, cs
+
+    def final_event(self):
+        """Pseudo event at the end of a full-history program: the arrays handed out earlier, as they are now."""
+        post, cs = self.project(None)
+        self.held.pop()
+        held = [[[to_units(v, self.unit) for v in flat_f(a)] for a in per_lw] for per_lw in self.held]
+        recs, prefix_ok, wlen = self.new_records(False)
+        return {"op": "final", "a": {"held": held}, "out": "ok", "post": post, "recs": recs, "wprefix": prefix_ok, "wlen": wlen,
+                "cs": cs, "tiesbig": False, "hasmodel": False}
 
     def new_records(self, with_cp):
         cur = list(self.wl)
@@ -552,9 +596,13 @@ class Twin:
                 a = self._a_pending
         post, cs = self.project(oplabel if isinstance(oplabel, str) else None)
         recs, prefix_ok, wlen = self.new_records(with_cp)
-        ev = {"op": name, "a": a, "out": outcome_class(exc), "post": post, "recs": recs, "wprefix": prefix_ok, "wlen": wlen}
+        ev = {"op": name, "a": a, "out": outcome_class(exc), "post": post, "recs": recs, "wprefix": prefix_ok, "wlen": wlen,
+              "hasmodel": False}
         extra["cs"] = cs
         ev.update(extra)
+        if "model" in op:
+            ev["hasmodel"] = True
+            ev["model"] = op["model"]
         return ev
 
     # ------------------------------------------------------------------ observing library code (C14)
@@ -655,7 +703,7 @@ class Twin:
         post, cs = self.project(oplabel)
         recs, prefix_ok, wlen = self.new_records(bool(self.prog.get("flags", {}).get("file")))
         ev = {"op": name, "a": a, "out": outcome_class(exc), "post": post, "recs": recs, "wprefix": prefix_ok, "wlen": wlen,
-              "cs": cs, "tiesbig": False}
+              "cs": cs, "tiesbig": False, "hasmodel": False}
         ev.update(extra)
         return ev
 
@@ -875,7 +923,7 @@ class Twin:
         post, cs = self.project(None)
         recs, prefix_ok, wlen = self.new_records(True)
         return {"op": name, "a": a, "out": outcome_class(exc), "post": post, "recs": recs, "wprefix": prefix_ok,
-                "wlen": wlen, "file": fileinfo, "strcp": strcp, "cs": cs, "tiesbig": False}
+                "wlen": wlen, "file": fileinfo, "strcp": strcp, "cs": cs, "tiesbig": False, "hasmodel": False}
 
 
 def _flat(a):
@@ -935,6 +983,7 @@ def execute(prog):
         flags.setdefault("comp", True)
         flags.setdefault("norm", False)
         flags.setdefault("file", False)
+        flags.setdefault("fullhist", False)
         flags["robot"] = flags["robot"] and flags["records"]
         hdr["flags"] = flags
         hdr["splitting"] = splitting
@@ -944,6 +993,8 @@ def execute(prog):
             p = pres[i] if i < len(pres) else {}
             ev = tw.run_op(op, p)
             events.extend(ev if isinstance(ev, list) else [ev])
+        if tw.fullhist:
+            events.append(tw.final_event())
         hdr["events"] = events
         return hdr
     finally:
